@@ -477,6 +477,10 @@ impl TreeSink for RcDom {
 
         remove_from_parent(&child);
 
+        // Detaching the new node can shift the sibling when both had the same parent.
+        let (parent, i) = get_parent_and_index(sibling)
+            .expect("append_before_sibling called on node without parent");
+
         child.parent.set(Some(Rc::downgrade(&parent)));
         parent.children.borrow_mut().insert(i, child);
     }
